@@ -30,31 +30,7 @@ from ._sel import base_of
 from ._sel import order_problem
 
 
-def written_attrs(model: Model, cls_qual: str) -> Set[str]:
-    """Attributes X of class instances such that a non-constructor method writes self.X / self.X[..] / self.X.mutator()."""
-    out: Set[str] = set()
-    ci = model.cls(cls_qual)
-    quals = {c.qualname for c in ci.mro()}
-    for w in effects.census(model, exclude_modules=()):
-        if w.fn.cls is None or w.fn.cls.qualname not in quals:
-            continue
-        if w.cls in ("init", "fresh", "exception"):
-            continue
-        try:
-            e = ast.parse(w.receiver, mode="eval").body
-        except SyntaxError:
-            continue
-        chain: List[str] = []
-        while isinstance(e, (ast.Attribute, ast.Subscript)):
-            if isinstance(e, ast.Attribute):
-                chain.append(e.attr)
-            e = e.value
-        if isinstance(e, ast.Name) and e.id == "self":
-            if chain:
-                out.add(chain[-1])
-            elif w.kind in ("attr-store", "delete") and w.detail.isidentifier():
-                out.add(w.detail)
-    return out
+written_attrs = effects.written_attrs
 
 
 def result_memos(model: Model, fn: Any, key_param: str) -> Set[str]:
@@ -85,11 +61,7 @@ def result_memos(model: Model, fn: Any, key_param: str) -> Set[str]:
 
 
 def havoc(it: Interp, model: Model, inst: Inst, cls_qual: str, label: str) -> List[str]:
-    done = []
-    for name in sorted(written_attrs(model, cls_qual)):
-        inst.attrs[name] = it.new_opaque(f"state-left-by-earlier-calls:{label}.{name}")
-        done.append(f"{label}.{name}")
-    return done
+    return it.havoc_written(inst, label)
 
 
 def check_compile(model: Model, report: Report, rule: str) -> None:
